@@ -157,8 +157,11 @@ fn variant_name(e: &ConvertError) -> &'static str {
 fn write_file(c: &Case, built: &Built, path: &str) -> Outcome {
     let r = catch(|| match c.writer {
         Writer::Svg => {
+            // the writing renderer instance may have rendered before (warm-up: other option values, the last shape layer
+            // added afterwards); the file must hold what a fresh renderer with the final options produces in memory
             let mut b = SvgBuilder::default();
-            c.cfg.apply(&mut b);
+            c.cfg.apply_for_warm(&mut b);
+            c.cfg.warm_up_svg_builder(&mut b, &built.qr);
             b.to_file(&built.qr, path).map_err(|e| {
                 let text = format!("{:?}", e);
                 let ce: ConvertError = e.into();
@@ -167,7 +170,8 @@ fn write_file(c: &Case, built: &Built, path: &str) -> Outcome {
         }
         Writer::Png => {
             let mut b = ImageBuilder::default();
-            c.cfg.apply(&mut b);
+            c.cfg.apply_for_warm(&mut b);
+            c.cfg.warm_up_image_builder(&mut b, &built.qr);
             b.to_file(&built.qr, path).map_err(|e| {
                 let text = format!("{}", e);
                 let ce: ConvertError = e.into();
